@@ -451,6 +451,12 @@ def h_render(w, nthreads):
     return [mk(str(i)) for i in range(nthreads)], finish
 
 
+BLOCK_TEXTS = [
+    "<%\n    a = \"\"\"x\n      y\"\"\"\n    b = 1\n%>[${a}]${b}",
+    "<%\n    c = 2\n    if c:\n        d = 'z'\n%>${c}${d}",
+    "<%!\n    K = \"\"\"k\n  k\"\"\"\n%>${K}",
+]
+
 COMPILE_TEXTS = [
     "<%def name='f(a)'>${a}!</%def>A${f(x)}\n% if x:\nyes\n% endif\n",
     "<%! k = 7 %>B${k}${x | h}<%doc>z</%doc>\n## c\n",
@@ -458,27 +464,28 @@ COMPILE_TEXTS = [
 ]
 
 
-def compile_solo():
+def compile_solo(texts=None, key="csolo"):
     from mako.template import Template
     from mako import lexer as mlexer
 
+    texts = texts or COMPILE_TEXTS
     if _PROC.get("pid") != os.getpid():
         _PROC.clear()
         _PROC["pid"] = os.getpid()
-    if "csolo" not in _PROC:
+    if key not in _PROC:
         out = []
-        for i, t in enumerate(COMPILE_TEXTS):
+        for i, t in enumerate(texts):
             mlexer._regexp_cache.clear()
             out.append(Template(t, uri="t%d" % i).render(x="1"))
-        _PROC["csolo"] = out
-    return _PROC["csolo"]
+        _PROC[key] = out
+    return _PROC[key]
 
 
-def h_compile(w, nthreads):
+def h_compile(w, nthreads, texts_all=None):
     """first compile of different template texts in different threads (shared regexp cache, module registry)"""
     from mako.template import Template
 
-    texts = COMPILE_TEXTS[:nthreads]
+    texts = (texts_all or COMPILE_TEXTS)[:nthreads]
     expected = w.solos
 
     def mk(i):
@@ -504,7 +511,12 @@ def h_compile(w, nthreads):
     return [mk(i) for i in range(nthreads)], finish
 
 
-RENDER_HARNESSES = {"render": h_render, "compile": h_compile}
+def h_compile_blocks(w, nthreads):
+    """concurrent compiles of templates with Python blocks: the re-margining scanners (pygen) at line level"""
+    return h_compile(w, nthreads, BLOCK_TEXTS)
+
+
+RENDER_HARNESSES = {"render": h_render, "compile": h_compile, "compile-blocks": h_compile_blocks}
 
 
 # --------------------------------------------------------------------------
@@ -524,17 +536,23 @@ def trace_prefixes(kind):
         )
     if kind in ("compile",):
         return (os.path.join(repo, "mako", "lexer.py"), os.path.join(repo, "mako", "template.py"))
+    if kind == "compile-blocks":
+        return (os.path.join(repo, "mako", "pygen.py"),)
     return base
 
 
 def run_one(spec, prefix, record=False):
     """spec = (harness, nthreads, fine)  -> (Execution, violations)"""
     name, nthreads, fine = spec
-    s = sched.Scheduler(prefix, trace_files=trace_prefixes(name) if fine else None, record_trace=record)
+    names = None
+    if name == "compile-blocks":
+        # the re-margining scanners only (the printer itself runs for every generated line)
+        names = {"adjust_whitespace", "in_multi_line", "_indent_line", "_flush_adjusted_lines", "_in_multi_line", "_reset_multi_line_flags", "write_indented_block", "_expand_leading_tabs"}
+    s = sched.Scheduler(prefix, trace_files=trace_prefixes(name) if fine else None, record_trace=record, trace_names=names)
     if name in RENDER_HARNESSES:
-        solos = solo_outputs() if name == "render" else compile_solo()
+        solos = solo_outputs() if name == "render" else (compile_solo(BLOCK_TEXTS, "bsolo") if name == "compile-blocks" else compile_solo())
         w = RenderWorld(s, fine)
-        if name == "compile" and not fine:
+        if name in ("compile", "compile-blocks") and not fine:
             from mako import lexer as mlexer
 
             class YCache(dict):
@@ -586,6 +604,7 @@ def specs(tier):
     out.append(("render", 2, False, None))
     out.append(("render", 2, True, 1))  # ~830 line-level points: bound 2 would be ~10^5 executions of 50 ms each
     out.append(("compile", 2, False, 1 if q else 2))
+    out.append(("compile-blocks", 2, True, 1 if q else 2))
     if not q:
         out.append(("compile", 2, True, 1))
         out.append(("render", 3, True, 1))
